@@ -450,12 +450,35 @@ PreviousBucket(Bucket **current, Bucket *first)
     return result;
 }
 
+#ifdef BTREES_VERIF
+/* Verification hook (compiled in only when the build sees BTREES_VERIF=1):
+ * an allocation-failure countdown.  Disarmed (countdown == 0) it only counts.
+ */
+static long verif_alloc_countdown = 0;
+static long verif_alloc_count = 0;
+
+static int
+verif_alloc_should_fail(void)
+{
+    verif_alloc_count++;
+    if (verif_alloc_countdown > 0 && --verif_alloc_countdown == 0)
+        return 1;
+    return 0;
+}
+#endif
+
 static void *
 BTree_Malloc(size_t sz)
 {
     void *r;
 
     ASSERT(sz > 0, "non-positive size malloc", NULL);
+#ifdef BTREES_VERIF
+    if (verif_alloc_should_fail()) {
+        PyErr_NoMemory();
+        return NULL;
+    }
+#endif
 
     r = malloc(sz);
     if (r)
@@ -471,6 +494,12 @@ BTree_Realloc(void *p, size_t sz)
     void *r;
 
     ASSERT(sz > 0, "non-positive size realloc", NULL);
+#ifdef BTREES_VERIF
+    if (verif_alloc_should_fail()) {
+        PyErr_NoMemory();
+        return NULL;
+    }
+#endif
 
     if (p)
         r = realloc(p, sz);
@@ -515,7 +544,37 @@ BTree_ShouldSuppressKeyError()
 #include "SetOpTemplate.c"
 #include "MergeTemplate.c"
 
+#ifdef BTREES_VERIF
+static PyObject *
+verif_alloc_arm(PyObject *ignored, PyObject *args)
+{
+    long n;
+    long previous = verif_alloc_count;
+
+    if (!PyArg_ParseTuple(args, "l:_verif_alloc_arm", &n))
+        return NULL;
+    verif_alloc_countdown = n;
+    verif_alloc_count = 0;
+    return PyLong_FromLong(previous);
+}
+
+static PyObject *
+verif_alloc_get_count(PyObject *ignored, PyObject *args)
+{
+    return PyLong_FromLong(verif_alloc_count);
+}
+#endif
+
 static struct PyMethodDef module_methods[] = {
+#ifdef BTREES_VERIF
+  {"_verif_alloc_arm", (PyCFunction) verif_alloc_arm, METH_VARARGS,
+   "_verif_alloc_arm(n): fail the n-th allocation from now (0 disarms); "
+   "resets and returns the allocation counter"
+  },
+  {"_verif_alloc_count", (PyCFunction) verif_alloc_get_count, METH_NOARGS,
+   "_verif_alloc_count(): allocations seen since the counter was reset"
+  },
+#endif
   {"difference", (PyCFunction) difference_m,    METH_VARARGS,
    "difference(o1, o2)\n"
    "compute the difference between o1 and o2"
